@@ -21,6 +21,10 @@ def make_spec_arrays(spec):
     # rows whose calibration columns are trivial (all scales 1 / all offsets 0 / all weights 1), as written by
     # instruments that do not rescale: for every row ("trivial"), or for some rows only ("mixed")
     rng2 = np.random.default_rng(spec["seed"] + 1)
+    if spec.get("scl_zeros"):
+        # a few channels with a scale of exactly zero (dead channels as some back-ends mark them): value = offset * weight
+        zmask = rng2.random(scl.shape) < 0.2
+        scl[zmask] = 0.0
     for arr, key, triv in ((scl, "scl_kind", 1.0), (offs, "offs_kind", 0.0), (wts, "wts_kind", 1.0)):
         kind = spec.get(key, "random")
         for i in range(nsub):
